@@ -8,18 +8,25 @@ pub(crate) mod kani_rng {
     use crate::verif::rfc::rand_spec;
     use crate::verif::rfc_tables::*;
 
-    // C15/C04: Rand[y,i,m] equals the RFC definition for every y, every i used by any call site (0..=7),
-    // every m > 0, and never overflows (Kani's automatic arithmetic checks). Loop-free: complete.
+    // C15/C04: Rand[y,i,m] = (V0[x0] ^ V1[x1] ^ V2[x2] ^ V3[x3]) % m.  Decomposed so that no two structurally different
+    // symbolic-divisor modulo circuits have to be proved equivalent (intractable for SAT):
+    //  (A) with m = 2^32 - 1 the reduction is the identity unless the xor value is 2^32 - 1, so this harness proves
+    //      the 32-bit xor value (all four table indices, for every y and every i <= 7) equal to the RFC's;
+    //  (B) the final reduction `% m` for every m > 0 is proved in the Verus unit V-RNG on the extracted function
+    //      (result == xor value % m, no overflow), where integer arithmetic is cheap.
     #[kani::proof]
-    pub(crate) fn rand_matches_rfc() {
+    pub(crate) fn rand_xor_value_matches_rfc() {
         let y: u32 = kani::any();
         let i: u32 = kani::any();
-        let m: u32 = kani::any();
         kani::assume(i <= 7);
-        kani::assume(m > 0);
-        let r = rand(y, i, m);
-        assert!(r == rand_spec(y, i, m), "C15 rand == RFC Rand[y,i,m]");
-        assert!(r < m, "C15 rand < m");
+        let x = crate::verif::rfc::rand_raw_spec(y, i);
+        let r = rand(y, i, u32::MAX);
+        assert!(r == x % u32::MAX, "C15 rand(y,i,2^32-1) == RFC xor value mod 2^32-1");
+        if x != u32::MAX {
+            assert!(r == x, "C15 rand's xor value == V0[x0]^V1[x1]^V2[x2]^V3[x3] of the RFC");
+        }
+        // the one value the reduction by 2^32-1 hides is told apart by a second modulus
+        assert!(rand(y, i, 1 << 31) == x % (1 << 31), "C15 rand(y,i,2^31) == RFC xor value mod 2^31");
         kani::cover!(y == 0xFFFF_FFFE && i == 2, "reach: y + i exceeds 2^32");
     }
 
